@@ -160,6 +160,12 @@ func runC06(r *run) {
 			r.emit(fmt.Sprintf("C17 reg %d %s %s %s %s %s %s %s %d %d 12 0", v, hxs(title), hxs(tags[0]), hxs(tags[1]), hxs(tags[2]), hxs(tags[3]), hxs(tags[4]), hxs(tags[5]), clr, bg), "ok")
 			c.lvl = v
 		}
+		if g.chance(1, 8) {
+			// colors of a level changed at run time, including pairs without a foreground or without a background
+			fg, bg := []int{-1, 31, 35, 93}[g.intn(4)], []int{-1, 4, 44, 1}[g.intn(4)]
+			slog.SetLevelColors(slog.Level(c.lvl), color.Color(fg), color.Color(bg))
+			r.emit(fmt.Sprintf("C17 setcolors %d %d %d", c.lvl, fg, bg), "ok")
+		}
 		encRun(r, "C06", c)
 		lines := strings.Count(strings.TrimRight(c.msg, "\n\r"), "\n") + 1
 		kinds := map[string]bool{}
